@@ -180,3 +180,89 @@ def decorate(model, rng, user_cons=True, tolerance=None, knock=False, second_gro
     if knock and model.genes:
         model.genes[rng.randrange(len(model.genes))].knock_out()
     return model
+
+
+# ---------------------------------------------------------------------------------------------- crash-tolerant fork pool
+def _pool_worker(fn, tasks, counter, conn):
+    quiet()
+    n = len(tasks)
+    while True:
+        with counter.get_lock():
+            i = counter.value
+            counter.value += 1
+        if i >= n:
+            break
+        conn.send(("start", i))
+        try:
+            r = ("ok", fn(tasks[i]))
+        except BaseException as e:  # noqa
+            import traceback
+            r = ("exception", f"{type(e).__name__}: {e}; {traceback.format_exc()[-500:]}")
+        try:
+            conn.send(("done", i, r))
+        except Exception as e:  # unpicklable result
+            conn.send(("done", i, ("exception", f"result not transferable: {e!r}")))
+    conn.send(("end",))
+    conn.close()
+
+
+def run_tasks(fn, tasks, nproc=16, task_timeout=300.0):
+    """fork pool with dynamic scheduling that survives dying workers (multiprocessing.Pool.map hangs for ever when a
+    worker is killed, e.g. by a segfault in GLPK under a defective cobra): -> list of (status, value) aligned with tasks,
+    status in 'ok' | 'exception' (value = text) | 'crash' (value = exit code text) | 'timeout'."""
+    import multiprocessing as mp
+    import multiprocessing.connection as mpc
+    import time
+    ctx = mp.get_context("fork")
+    n = len(tasks)
+    results = [None] * n
+    counter = ctx.Value("i", 0)
+    live = {}
+
+    def spawn():
+        parent, child = ctx.Pipe(duplex=False)
+        p = ctx.Process(target=_pool_worker, args=(fn, tasks, counter, child), daemon=False)  # workers may fork pools
+        p.start()
+        child.close()
+        live[parent] = [p, None, time.time(), None]
+
+    for _ in range(max(1, min(nproc, n))):
+        spawn()
+    try:
+        while live:
+            ready = mpc.wait(list(live), timeout=2.0)
+            for conn in ready:
+                st = live[conn]
+                try:
+                    msg = conn.recv()
+                except (EOFError, OSError):
+                    p, cur = st[0], st[1]
+                    p.join(5)
+                    del live[conn]
+                    if cur is not None:
+                        results[cur] = (st[3] or "crash", f"worker exit code {p.exitcode}")
+                    with counter.get_lock():
+                        more = counter.value < n
+                    if more:
+                        spawn()
+                    continue
+                if msg[0] == "start":
+                    st[1], st[2] = msg[1], time.time()
+                elif msg[0] == "done":
+                    results[msg[1]] = msg[2]
+                    st[1] = None
+                else:
+                    st[0].join(5)
+                    del live[conn]
+            now = time.time()
+            for conn, st in list(live.items()):
+                if st[1] is not None and now - st[2] > task_timeout and st[3] is None:
+                    st[3] = "timeout"
+                    st[0].kill()
+    finally:
+        for st in live.values():
+            try:
+                st[0].kill()
+            except Exception:  # noqa
+                pass
+    return [r if r is not None else ("crash", "no result") for r in results]
